@@ -5,7 +5,16 @@
 package vsync
 
 import (
+	"sync"
+
 	"github.com/LiskHQ/lisk-engine/pkg/verifrt/vsched"
+)
+
+// Pool and Map carry no blocking operation: the real types are used as they are (under the scheduler only one thread
+// runs at a time, so a pool behaves as a deterministic free list within one execution).
+type (
+	Pool = sync.Pool
+	Map  = sync.Map
 )
 
 type Locker interface {
